@@ -94,12 +94,16 @@ def has_vec_none(elems):
     def none(e):
         return e is not None and e["e"] == "opt" and e.get("inner") is None
 
+    def absent(e):      # None, an empty Vec, a reload handle currently holding None - possibly behind wrappers
+        e = unwrap(e)
+        return e is not None and (none(e) or (e["e"] == "vec" and not e["items"]) or (e["e"] == "swap" and not e["on"]))
+
     def vecnone(e):
         return e is not None and e["e"] == "vec" and len(e["items"]) >= 2 and any(none(x) for x in e["items"])
 
     def unwrap(e):
-        while e is not None and (e["e"] in ("box", "reload") or (e["e"] == "opt" and e.get("inner") is not None)):
-            e = e["inner"]
+        while e is not None and (e["e"] in ("box", "reload") or (e["e"] == "opt" and e.get("inner") is not None) or (e["e"] == "vec" and len(e["items"]) == 1)):
+            e = e["inner"] if e["e"] != "vec" else e["items"][0]
         return e
 
     def go(e):
@@ -110,8 +114,7 @@ def has_vec_none(elems):
         return any(go(x) for x in ([e.get("inner"), e.get("a"), e.get("b")] + list(e.get("items", []))) if isinstance(x, dict))
     if len(elems) < 2 or not any(go(e) for e in elems):
         return False
-    bottom = unwrap(elems[0])
-    return none(bottom) or vecnone(bottom)
+    return absent(elems[0]) or vecnone(unwrap(elems[0]))
 
 
 def replay(out, path):
